@@ -224,7 +224,9 @@ def cand_k(A6):
     sc = min(abs(A6[0]), abs(A6[4]))
     if sc < 1:
         return [1]
-    return sorted({max(1, math.floor(sc)), math.floor(sc) + 1})
+    k0 = max(1, math.floor(sc))
+    near_next = sc > k0 + 1 - Fr(1, 256)      # _pick_read_scale may snap up (its tol is 1e-3)
+    return [k0, k0 + 1] if near_next else [k0]
 
 
 # ---------------------------------------------------------------- GeoBox level, same CRS
@@ -241,7 +243,7 @@ def pair_stream(rng, n, small=False):
         k = 1
         dl = Fr(0)
         if fam in ("scale_int", "scale_near", "mirror") and rng.random() < 0.8:
-            k = rng.choice([2, 2, 4, 3, 5, 8])
+            k = rng.choice([2, 2, 4, 4, 3, 5, 8, 2])
         if fam == "scale_near":
             dl = rng.choice([Fr(stol), -Fr(stol), Fr(stol) / 2, -Fr(stol) / 4, Fr(stol) * 2, Fr(stol) + Fr(1, 2 ** 24),
                              Fr(stol) - Fr(1, 2 ** 24), -Fr(stol) + Fr(1, 2 ** 24)])
@@ -275,6 +277,7 @@ def pair_stream(rng, n, small=False):
             for j in (0, 1):
                 ep[j] = abs((sx, sy)[j]) * rng.choice([Fr(0), Fr(ttol), -Fr(ttol), Fr(ttol) - Fr(1, 2 ** 20), Fr(ttol) + Fr(1, 2 ** 20),
                                                        -Fr(ttol) + Fr(1, 2 ** 20), -Fr(ttol) - Fr(1, 2 ** 20), Fr(1, 64), Fr(-1, 64),
+                                                       Fr(1, 128), Fr(-1, 32), Fr(ttol) / 2, -Fr(ttol) / 4, Fr(ttol) - Fr(1, 2 ** 20),
                                                        Fr(1, 4), Fr(1, 2), Fr(-3, 8)])
         A6 = [sx, Fr(0), offs[0] + ep[0], Fr(0), sy, offs[1] + ep[1]]
         if fam == "rot90":
@@ -296,8 +299,11 @@ def pair_stream(rng, n, small=False):
             continue
         A = Affine(*[float(v) for v in A6])
         src, dst = G.mk_pair(ns, nd, A)
-        padding = rng.choice([None, None, None, 0, 0, 1, 2, 5])
-        align = rng.choice([None, None, None, 0, 1, 2, 4, 16, 3])
+        if fam in ("shift", "subpix", "scale_int", "scale_near", "mirror") and rng.random() < 0.75:
+            padding, align = rng.choice([None, None, 0]), rng.choice([None, None, 0])
+        else:
+            padding = rng.choice([None, None, None, 0, 0, 1, 2, 5])
+            align = rng.choice([None, None, None, 0, 1, 2, 4, 16, 3])
         kw = {"ttol": ttol, "stol": stol, "padding": padding, "align": align}
         yield src, dst, kw, fam, tuple(kinds)
 
@@ -393,13 +399,25 @@ def nl_stream(rng, n):
     for i in range(n):
         c1, a1, c2, a2 = NL_PAIRS[i % len(NL_PAIRS)]
         if rng.random() < 0.5:
-            c1, a1, c2, a2 = c2, a2, c1, a1
-        ns = (rng.randint(1, 60), rng.randint(1, 60))
-        nd = (rng.randint(0 if rng.random() < 0.05 else 1, 60), rng.randint(1, 60))
-        sh = lambda a, dx, dy: Affine(*a) * Affine.translation(dx, dy)
-        far = rng.random() < 0.2
-        src = GeoBox(ns, sh(a1, rng.randint(-20, 20), rng.randint(-20, 20)), c1)
-        dst = GeoBox(nd, sh(a2, rng.randint(-20, 20) + (500 if far else 0), rng.randint(-20, 20)), c2)
+            c1, c2 = c2, c1
+            a1 = a2
+        ns = (rng.randint(2, 40), rng.randint(2, 40))
+        src = GeoBox(ns, Affine(*a1) * Affine.translation(rng.randint(-20, 20), rng.randint(-20, 20)), c1)
+        # destination grid over the source footprint, then windowed / shifted / made coarser or finer
+        with warnings.catch_warnings():
+            warnings.simplefilter("ignore")
+            full = GeoBox.from_bbox(src.footprint(c2).boundingbox, c2, shape=(rng.randint(3, 40), rng.randint(3, 40)), tight=True)
+        ny, nx = full.shape
+        mode = rng.random()
+        if mode < 0.15:      # far away: no overlap
+            dst = full * Affine.translation(rng.choice([-1, 1]) * (nx + rng.randint(3, 40)), rng.randint(-3, 3))
+        elif mode < 0.2:     # empty destination
+            dst = GeoBox((0, nx), full.affine, c2)
+        else:                # partial overlap on each side / contained / covering
+            dst = full.pad(rng.randint(0, 4))
+            h, w = dst.shape
+            y0, x0 = rng.randint(0, h - 1), rng.randint(0, w - 1)
+            dst = dst[y0:rng.randint(y0 + 1, h), x0:rng.randint(x0 + 1, w)]
         yield src, dst, {"padding": rng.choice([None, None, 0, 1, 3]), "align": rng.choice([None, None, 0, 2, 16])}
 
 
@@ -514,7 +532,12 @@ def p_reproject(src_shape, dst_shape, A, kw):
     xs = [G.aapply(T, c) for c in ((0, 0), (mx, 0), (mx, my), (0, my))]
     bx0, bx1 = min(p[0] for p in xs), max(p[0] for p in xs)
     by0, by1 = min(p[1] for p in xs), max(p[1] for p in xs)
-    if mx > 0 and my > 0 and (bx1 <= -pad - 1 or by1 <= -pad - 1 or bx0 >= nx + pad + 1 or by0 >= ny + pad + 1):
+    # margin: the padding below the image; padding + align - 1 above it (an aligned start may reach back)
+    al = (kw.get("align") or 1) - 1
+    # "more than": strict, with 1e-6 px of slack so that binary64 noise in the implementation's own
+    # inverse affine cannot decide the case
+    eps = Fr(1, 10 ** 6)
+    if mx > 0 and my > 0 and (bx1 < -pad - eps or by1 < -pad - eps or bx0 > nx + pad + al + 1 + eps or by0 > ny + pad + al + 1 + eps):
         if (sy1 - sy0) * (sx1 - sx0) != 0 or (dy1 - dy0) * (dx1 - dx0) != 0:
             return False, why + ": regions not empty although the rasters are separated by more than the padding"
     for dy in range(my):
@@ -524,6 +547,9 @@ def p_reproject(src_shape, dst_shape, A, kw):
                 kx, ky = math.floor(px), math.floor(py)
                 if not (dx0 <= dx < dx1 and dy0 <= dy < dy1 and sx0 <= kx < sx1 and sy0 <= ky < sy1):
                     return False, why + f": destination pixel (x={dx},y={dy}) maps to source pixel (x={kx},y={ky}) but is not covered"
+                if not r.paste_ok and not (sx0 <= max(0, kx - pad) and min(nx, kx + 1 + pad) <= sx1 and
+                                           sy0 <= max(0, ky - pad) and min(ny, ky + 1 + pad) <= sy1):
+                    return False, why + f": the padding of {pad} source pixels around needed pixel (x={kx},y={ky}) is not part of roi_src"
     return True, why
 
 
@@ -613,11 +639,9 @@ def search(out, tier):
     n = 400 if tier == "quick" else 6000
     for src, dst, kw, fam, _ in pair_stream(rng, n, small=True):
         A = G.amul(G.ainv(G.aff6(src.affine)), G.aff6(dst.affine))
+        # inclusion for the true transform needs the accumulated drift of a tolerated scale / shift
+        # deviation to stay below half a pixel: images <= 12 px, stol <= 2^-6, ttol <= 1/4
         kw2 = dict(kw)
-        # inclusion for the true transform needs the accumulated drift of a tolerated
-        # scale / shift deviation to stay below half a pixel: small images, tolerances < 1/4
-        if kw2["ttol"] > 0.2:
-            kw2["ttol"] = 0.05
         out.count("search-family:" + fam)
         run("reproject", list(src.shape), list(dst.shape), [str(v) for v in A], kw2)
     # different CRS: dense check of the enclosing hypothesis
